@@ -3,7 +3,7 @@ rc_target("c17_memtrace_mt", flavour="sched", wrap=True)
 # second engine for the threaded clause: free-running threads under ThreadSanitizer (a critical section whose lock calls
 # were removed is atomic under the controlled scheduler - no decision point inside - and only visible as a data race)
 rc_target("c17_race", flavour="tsan", race_oracle=True)
-plan("C17", [T("c17_memtrace", 8000, 60000), T("c17_memtrace_mt", 2000, 10000), T("c17_race", 1500, 12000, 3, 8)], min_nt=3000,
+plan("C17", [T("c17_memtrace", 8000, 60000), TT(GCC("c17_memtrace"), 6000), T("c17_memtrace_mt", 2000, 10000), T("c17_race", 1500, 12000, 3, 8)], min_nt=3000,
      rule="allocation histories against a reference live map; threaded histories x schedules under the controlled scheduler",
      technique="model-based property testing (rapidcheck): command sequences vs. a reference live map with block patterns; "
                "threaded programs x generated schedules under the controlled scheduler with an in-flight-operation oracle + the same kind of generated program on free-running threads under ThreadSanitizer (race report or functional oracle)",
